@@ -409,13 +409,337 @@ def fam_inherit(rng):
     return ops
 
 
+# ---------------------------------------------------------------------------------------------------------------------------
+# memo / cache keys that are too coarse: successive calls present values that collide under ==, under hash, under type(), or under
+# the identity of a shared annotation object, while the annotated types (or the values) differ
+
+# values that are == / hash-equal across Python types, with the strings that spell them
+EQ_GROUPS = [[1, 1.0, True, '1', '1.0', 'true', 'True'],
+             [0, 0.0, False, -0.0, '0', '0.0', '-0.0', 'false', ''],
+             [2, 2.0, '2', '2.0', 2.5, '2.5']]
+
+# scalar kind -> (annotation source with {E..} placeholders for the history's Enum classes, native constructor of a number n or None)
+EQ_KINDS = {
+    'timedelta': ('timedelta', 'timedelta(seconds={n})'),
+    'int': ('int', None),
+    'float': ('float', None),
+    'bool': ('bool', None),
+    'str': ('str', None),
+    'decimal': ('Decimal', 'Decimal("{n}")'),
+    'datetime': ('datetime', None),
+    'date': ('date', None),
+    'time': ('time', None),
+    'enum_int': ('{EI}', '{EI}({n})'),
+    'enum_float': ('{EF}', '{EF}(float({n}))'),
+    'enum_str': ('{ES}', '{ES}(str({n}))'),
+    'enum_bool': ('{EB}', '{EB}(bool({n}))'),
+    'int_enum': ('{EN}', '{EN}({n})'),
+    'any': ('Any', None),
+    'lit_int': ('Literal[0, 1, 2]', None),
+    'lit_bool': ('Literal[False, True]', None),
+    'lit_str': ("Literal['0', '1', '2']", None),
+    'u_int_float': ('Union[int, float]', None),
+    'u_bool_int': ('Union[bool, int]', None),
+    'u_float_bool_str': ('Union[float, bool, str]', None),
+    'u_str_int': ('Union[str, int]', None),
+    'u_td_int': ('Union[timedelta, int]', 'timedelta(seconds={n})'),
+    'u_dec_float': ('Union[Decimal, float]', 'Decimal("{n}")'),
+}
+# the kinds whose documented inputs include numbers, strings of numbers and (rejected or coerced) booleans get most of the weight
+EQ_KIND_WEIGHTS = {'timedelta': 8, 'int': 6, 'float': 6, 'bool': 6, 'decimal': 6, 'enum_int': 4, 'enum_float': 4, 'enum_str': 4, 'datetime': 4,
+                   'int_enum': 4, 'str': 4, 'date': 2, 'time': 2, 'enum_bool': 2, 'any': 2}
+EQ_WRAPS = ['', '', '', 'Optional[{t}]', 'list[{t}]', 'list[{t}]', 'dict[str, {t}]', 'tuple[{t}, ...]', 'set[{t}]']
+
+
+def _engine_src(rng, name, engine, wizard, body, extra_meta=()):
+    """source of a dataclass on the default engine, on the v1 engine through an inner Meta, or plain (v1 bound with LoadMeta later)"""
+    items = list(extra_meta)
+    if engine == 'v1' and wizard:
+        items.insert(0, 'v1 = True')
+    meta = ''
+    if wizard and items:
+        meta = '    class _(JSONWizard.Meta):\n' + ''.join(f'        {x}\n' for x in items)
+    return f'@dataclass\nclass {name}{"(JSONWizard)" if wizard else ""}:\n{meta}{body}'
+
+
+def _pick_engine(rng, p_default=0.5):
+    engine = 'default' if rng.random() < p_default else 'v1'
+    wizard = rng.random() < 0.5
+    return engine, wizard
+
+
+def _load_via(rng, wizard):
+    return rng.choice(['fromdict', 'fromdict', 'fromlist'] + (['method', 'method', 'json', 'method_list'] if wizard else []))
+
+
+def _dump_via(rng, wizard):
+    return rng.choice(['asdict', 'asdict'] + (['method', 'to_json'] if wizard else []))
+
+
+def fam_eq_values(rng):
+    """2..3 unrelated classes (either engine) whose fields are of a few scalar kinds the history concentrates on (bare, or inside
+    Optional / list / dict / tuple / set); successive documents, for the same class and for the other classes, put values that are
+    == and hash alike but differ in type (1 / 1.0 / True / '1', 0 / 0.0 / -0.0 / False / '0' / '') at the positions of one
+    annotated type; dumps of instances holding such values in between"""
+    tag = model.fresh('')
+    enums = {'EI': f'EqI{tag}', 'EF': f'EqF{tag}', 'ES': f'EqS{tag}', 'EB': f'EqB{tag}', 'EN': f'EqN{tag}'}
+    enum_src = (f'class {enums["EI"]}(Enum):\n    A = 0\n    B = 1\n    C = 2\n\n'
+                f'class {enums["EF"]}(Enum):\n    A = 0.0\n    B = 1.0\n    C = 2.0\n\n'
+                f'class {enums["ES"]}(Enum):\n    A = "0"\n    B = "1"\n    C = "2"\n\n'
+                f'class {enums["EB"]}(Enum):\n    A = False\n    B = True\n\n'
+                f'class {enums["EN"]}(_en.IntEnum):\n    A = 0\n    B = 1\n    C = 2\n')
+    ops = [{'op': 'src', 'src': enum_src, 'defines': sorted(enums.values())}]
+    kinds_all = sorted(EQ_KINDS)
+    focus = []
+    n_focus = rng.randint(3, 4)
+    while len(focus) < n_focus:
+        k = rng.choices(kinds_all, [EQ_KIND_WEIGHTS.get(k, 1) for k in kinds_all])[0]
+        if k not in focus:
+            focus.append(k)
+    group = rng.choice(EQ_GROUPS[:2] * 3 + EQ_GROUPS[2:])
+
+    def draw():
+        g = group if rng.random() < 0.85 else rng.choice(EQ_GROUPS)
+        if rng.random() < 0.6:            # the members that are == and hash alike, rather than their spellings
+            g = [v for v in g if not isinstance(v, str)]
+        return rng.choice(g)
+    classes = []                      # (name, wizard, [(field, kind, wrap)])
+    for _ in range(rng.randint(2, 3)):
+        name = model.fresh('Eq')
+        engine, wizard = _pick_engine(rng)
+        flds = []
+        for k in focus:
+            if rng.random() < 0.75 or not flds:
+                flds.append((f'f{len(flds)}', k, rng.choice(EQ_WRAPS)))
+        rng.shuffle(flds)
+        body = ''
+        for f, k, w in flds:
+            ann = EQ_KINDS[k][0].format(**enums)
+            body += f'    {f}: {w.format(t=ann) if w else ann} = None\n'
+        ops.append({'op': 'src', 'src': _engine_src(rng, name, engine, wizard, body), 'defines': [name], 'requires': sorted(enums.values())})
+        if engine == 'v1' and not wizard:
+            ops.append({'op': 'bind', 'cls': name, 'kind': 'load', 'meta': {'v1': True}})
+        classes.append((name, wizard, flds))
+
+    def doc_value(w):
+        if w.startswith(('list', 'tuple', 'set')):
+            return [draw() for _ in range(rng.randint(1, 3))]
+        if w.startswith('dict'):
+            return {kk: draw() for kk in rng.sample(['k', 'j', 'h'], rng.randint(1, 2))}
+        return draw()
+
+    def py_value(k, w):
+        def one():
+            v = draw()
+            native = EQ_KINDS[k][1]
+            if native and rng.random() < 0.35 and not isinstance(v, str):
+                return native.format(n=repr(v), **enums)
+            return repr(v)
+        if w.startswith('list'):
+            return '[' + ', '.join(one() for _ in range(rng.randint(1, 3))) + ']'
+        if w.startswith('tuple'):
+            return '(' + ''.join(one() + ', ' for _ in range(rng.randint(1, 3))) + ')'
+        if w.startswith('set'):
+            return '{' + one() + '}'
+        if w.startswith('dict'):
+            return '{' + ', '.join(f'{kk!r}: {one()}' for kk in rng.sample(['k', 'j', 'h'], rng.randint(1, 2))) + '}'
+        return one()
+    for _ in range(rng.randint(6, 12)):
+        name, wizard, flds = rng.choice(classes)
+        uses = {'uses': [name] + sorted(enums.values())}
+        if rng.random() < 0.8:
+            doc = {f: doc_value(w) for f, k, w in flds if rng.random() < 0.65}
+            ops.append(dict({'op': 'load', 'cls': name, 'doc': doc, 'via': _load_via(rng, wizard)}, **uses))
+        else:
+            args = ', '.join(f'{f}={py_value(k, w)}' for f, k, w in flds if rng.random() < 0.8)
+            ops.append(dict({'op': 'dump', 'cls': name, 'expr': f'{name}({args})', 'via': _dump_via(rng, wizard)}, **uses))
+    return ops
+
+
+# Union shapes in which the member that accepts a value is not a function of the value's Python type: annotation (with {A} / {B}
+# placeholders for two tagged dataclasses of the class's own), then per Python type the values that go to different members
+VALUE_UNIONS = [
+    ("Union[Literal['a', 'b'], str]", [['a', 'b'], ['c', 'zz', '', 'A']]),
+    ("Union[str, Literal['a', 'b']]", [['a', 'b'], ['c', 'zz', '']]),
+    ("Union[Literal[1, 2], int]", [[1, 2], [3, 0, -1, 10]]),
+    ("Union[int, Literal[1, 2]]", [[1, 2], [3, 0]]),
+    ("Union[Literal[1, 2], int, str]", [[1, 2], [3, 0], ['x', '1']]),
+    ("Union[Literal['a'], Literal['b'], str, int]", [['a'], ['b'], ['c', 'ab'], [1, 7]]),
+    ("Union[Literal['a', 1], str, int]", [['a', 1], ['c', 2], ['', 0]]),
+    ("Union[Literal[1, 2], float]", [[1, 2], [1.0, 2.0, 3.5], [3]]),
+    ("Union[Literal['a', 'b'], int]", [['a', 'b'], ['c', '5'], [5, 1]]),
+    ("Union[Literal[True], bool, int]", [[True], [False], [1, 0]]),
+    ("Union[Literal['a', 'b'], None, str]", [['a', 'b'], ['c', 'zz'], [None]]),
+    ("Union[Literal['on', 'off'], bool, str]", [['on', 'off'], ['yes', 'true'], [True, False]]),
+    ("Union[{A}, {B}, Literal['a'], str]", [['a'], ['c'], [{'__tag__': 'A', 'x_val': 1}], [{'__tag__': 'B', 'y_txt': 'q'}],
+                                            [{'__tag__': 'A', 'x_val': 2, 'y_txt': 'r'}], [{'x_val': 1}]]),
+    ("Union[{A}, {B}]", [[{'__tag__': 'A', 'x_val': 1}], [{'__tag__': 'B', 'y_txt': 'q'}], [{'__tag__': 'B'}], [{'__tag__': 'A'}], [{'__tag__': 'C'}]]),
+    ("Union[Literal[1, 2], {A}, int]", [[1, 2], [3], [{'__tag__': 'A', 'x_val': 1}], [{'x_val': 5}]]),
+]
+UNION_WRAPS = ['', '', '', 'Optional[{t}]', 'list[{t}]', 'dict[str, {t}]']
+
+
+def fam_value_union(rng):
+    """1..2 classes (either engine) with Union fields in which a Literal[...] member stands next to a plain member of the same
+    Python type (also: two tagged dataclasses, told apart by a value of the dict); the documents of the history bring, in random
+    order, values of one Python type that belong to different members (literal first, then non-literal, and vice versa)"""
+    ops, classes = [], []
+    for _ in range(rng.randint(1, 2)):
+        name, a, b = model.fresh('Un'), model.fresh('UA'), model.fresh('UB')
+        engine, wizard = _pick_engine(rng, 0.6)
+        flds, with_members = [], False
+        for j in range(rng.randint(1, 2)):
+            ann, pools = rng.choice(VALUE_UNIONS)
+            with_members = with_members or '{A}' in ann or '{B}' in ann
+            flds.append((f'u{j}', ann.format(A=a, B=b), pools, rng.choice(UNION_WRAPS)))
+        body = ''.join(f'    {f}: {w.format(t=ann) if w else ann} = None\n' for f, ann, _, w in flds) + '    note_txt: str = "n"\n'
+        v1 = '        v1 = True\n' if engine == 'v1' else ''
+        members = ''
+        if with_members:
+            members = (f'@dataclass\nclass {a}(JSONWizard):\n    class _(JSONWizard.Meta):\n{v1}        tag = "A"\n    x_val: int = 0\n\n'
+                       f'@dataclass\nclass {b}(JSONWizard):\n    class _(JSONWizard.Meta):\n{v1}        tag = "B"\n    y_txt: str = "y"\n\n')
+        ops.append({'op': 'src', 'src': members + _engine_src(rng, name, engine, wizard, body), 'defines': [name] + ([a, b] if members else [])})
+        if engine == 'v1' and not wizard:
+            ops.append({'op': 'bind', 'cls': name, 'kind': 'load', 'meta': {'v1': True}})
+        classes.append((name, a, b, wizard, flds))
+
+    def pick(pools, w, state):
+        def one():
+            # stay within one Python type most of the time, moving between the members that claim it
+            pool = rng.choice(pools)
+            if state.get('t') is not None and rng.random() < 0.6:
+                same = [p for p in pools if any(type(x) is state['t'] for x in p)]
+                pool = rng.choice(same) if same else pool
+            v = copy.deepcopy(rng.choice(pool))
+            state['t'] = type(v)
+            return v
+        if w.startswith('list'):
+            return [one() for _ in range(rng.randint(1, 3))]
+        if w.startswith('dict'):
+            return {kk: one() for kk in rng.sample(['k', 'j', 'h'], rng.randint(1, 2))}
+        return one()
+
+    def py_src(v, a, b):
+        if isinstance(v, dict) and ('x_val' in v or 'y_txt' in v or '__tag__' in v):
+            c = a if v.get('__tag__', 'A') == 'A' else b
+            return f'{c}(' + ', '.join(f'{k}={x!r}' for k, x in v.items() if k != '__tag__' and (k == 'x_val') == (c == a)) + ')'
+        if isinstance(v, list):
+            return '[' + ', '.join(py_src(x, a, b) for x in v) + ']'
+        if isinstance(v, dict):
+            return '{' + ', '.join(f'{k!r}: {py_src(x, a, b)}' for k, x in v.items()) + '}'
+        return repr(v)
+    states = {}
+    for _ in range(rng.randint(4, 10)):
+        name, a, b, wizard, flds = rng.choice(classes)
+        uses = {'uses': [name]}
+        vals = {f: pick(pools, w, states.setdefault((name, f), {})) for f, _, pools, w in flds if rng.random() < 0.9}
+        if rng.random() < 0.85:
+            if rng.random() < 0.3:
+                vals['note_txt'] = rng.choice(['m', 'a', 1])
+            ops.append(dict({'op': 'load', 'cls': name, 'doc': vals, 'via': _load_via(rng, wizard)}, **uses))
+        else:
+            args = ', '.join(f'{f}={py_src(v, a, b)}' for f, v in vals.items())
+            ops.append(dict({'op': 'dump', 'cls': name, 'expr': f'{name}({args})', 'via': _dump_via(rng, wizard)}, **uses))
+    return ops
+
+
+# strptime formats that every one of date / time / datetime can be read with, and inputs: matching, ISO, not matching
+PATTERN_FORMATS = [('%d.%m.%Y', ['10.12.1815', '01.02.2024']), ('%Y/%m/%d %H:%M', ['2021/03/04 05:06', '1999/12/31 23:59']),
+                   ('%H:%M', ['05:06', '23:59']), ('%m-%d-%y', ['03-04-21', '12-31-99']), ('%Y%m%d%H%M%S', ['20210304050607'])]
+PATTERN_OTHER_INPUTS = ['2020-01-02', '2020-01-02T03:04:05', '03:04:05', 'nope', 5]
+PATTERN_WRAPS = ['', '', 'Optional[{t}]', 'Optional[{t}]', 'list[{t}]', 'dict[str, {t}]']
+
+
+def fam_shared_pattern(rng):
+    """2..3 unrelated classes whose date / time / datetime fields (bare, or inside Optional / list / dict) are annotated with the
+    same module-level Pattern object(s) -- directly, or through a shared `Annotated[<type>, P]` alias object -- with different
+    date/time types in different classes (default engine: dataclass_wizard.Pattern; v1 engine: v1.Pattern); the patterned fields
+    have defaults, the first document of a class leaves them out more often than later ones, loads of the classes alternate"""
+    tag = model.fresh('')
+    n_pat = rng.randint(1, 2)
+    fmts = rng.sample(PATTERN_FORMATS, n_pat)
+    consts = [(f'PAT{tag}_{j}', f'VPAT{tag}_{j}') for j in range(n_pat)]
+    types = ['date', 'time', 'datetime']
+    src = 'from dataclass_wizard import Pattern as _Pattern0\nfrom dataclass_wizard.v1 import Pattern as _PatternV1\n'
+    defines = []
+    alias = {}                         # (const, type) -> name of a shared Annotated alias object
+    for (p0, p1), (fmt, _) in zip(consts, fmts):
+        src += f'{p0} = _Pattern0({fmt!r})\n{p1} = _PatternV1({fmt!r})\n'
+        defines += [p0, p1]
+        for p in (p0, p1):
+            for t in types:
+                if rng.random() < 0.3:
+                    alias[p, t] = f'AL_{p}_{t}'
+                    src += f'{alias[p, t]} = Annotated[{t}, {p}]\n'
+                    defines.append(alias[p, t])
+    ops = [{'op': 'src', 'src': src, 'defines': defines}]
+    classes = []
+    n_cls = rng.randint(2, 3)
+    first_types = rng.sample(types, 3)          # the classes use the first pattern with pairwise different types
+    engines = [_pick_engine(rng, 0.7) for _ in range(n_cls)]
+    if rng.random() < 0.7:                       # mostly one engine per history, so that the classes do share the object
+        engines = [(engines[0][0], w) for _, w in engines]
+    for ci in range(n_cls):
+        name = model.fresh('Pt')
+        engine, wizard = engines[ci]
+        flds = []
+        for j in range(n_pat):
+            if j == 0 or rng.random() < 0.7:
+                t = first_types[ci] if j == 0 else rng.choice(types)
+                for _ in range(1 if rng.random() < 0.8 else 2):
+                    flds.append((f'p{len(flds)}', j, t if not flds or rng.random() < 0.6 else rng.choice(types), rng.choice(PATTERN_WRAPS)))
+        body = '    name_txt: str = "n"\n'
+        for f, j, t, w in flds:
+            p = consts[j][1 if engine == 'v1' else 0]
+            if not w and (p, t) in alias:
+                ann = alias[p, t]
+            elif w and (p, t) in alias and rng.random() < 0.3:
+                ann = w.format(t=alias[p, t])              # the alias object inside a container
+            else:
+                ann = f'Annotated[{w.format(t=t) if w else t}, {p}]'
+            body += f'    {f}: {ann} = None\n'
+        ops.append({'op': 'src', 'src': _engine_src(rng, name, engine, wizard, body), 'defines': [name], 'requires': defines})
+        if engine == 'v1' and not wizard:
+            ops.append({'op': 'bind', 'cls': name, 'kind': 'load', 'meta': {'v1': True}})
+        classes.append((name, wizard, flds))
+
+    def text(j):
+        return rng.choice(fmts[j][1]) if rng.random() < 0.8 else rng.choice(PATTERN_OTHER_INPUTS)
+
+    def doc_value(j, w):
+        if w.startswith('list'):
+            return [text(j) for _ in range(rng.randint(1, 2))]
+        if w.startswith('dict'):
+            return {kk: text(j) for kk in rng.sample(['k', 'j'], rng.randint(1, 2))}
+        return text(j) if not w or rng.random() < 0.85 else None
+    native = {'date': 'date(2021, 3, 4)', 'time': 'time(5, 6)', 'datetime': 'datetime(2021, 3, 4, 5, 6)'}
+    loaded = set()
+    for _ in range(rng.randint(4, 10)):
+        name, wizard, flds = rng.choice(classes)
+        uses = {'uses': [name] + defines}
+        if rng.random() < 0.9:
+            p_in = 0.75 if name in loaded else 0.3
+            loaded.add(name)
+            doc = {'name_txt': rng.choice(['a', 'b'])} if rng.random() < 0.5 else {}
+            doc.update({f: doc_value(j, w) for f, j, t, w in flds if rng.random() < p_in})
+            ops.append(dict({'op': 'load', 'cls': name, 'doc': doc, 'via': _load_via(rng, wizard)}, **uses))
+        else:
+            args = ', '.join(f'{f}={native[t]}' for f, j, t, w in flds if not w and rng.random() < 0.8)
+            ops.append(dict({'op': 'dump', 'cls': name, 'expr': f'{name}({args})', 'via': _dump_via(rng, wizard)}, **uses))
+    return ops
+
+
+MEMO_FAMILIES = [fam_eq_values, fam_eq_values, fam_value_union, fam_shared_pattern]
+
+
 FAMILIES = [fam_nested_sub, fam_path, fam_path, fam_bad_condition, fam_strict, fam_spellings, fam_subclass, fam_subclass, fam_subtype, fam_bind,
-            fam_hooks, fam_hooks, fam_bind_late, fam_bind_late, fam_bind_late, fam_inherit, fam_inherit]
+            fam_hooks, fam_hooks, fam_bind_late, fam_bind_late, fam_bind_late, fam_inherit, fam_inherit,
+            fam_eq_values, fam_value_union, fam_shared_pattern]
 
 
-def gen_history(rng):
+def gen_history(rng, families=None):
     k = rng.choice([1, 1, 2, 3])
-    parts = [rng.choice(FAMILIES)(rng) for _ in range(k)]
+    parts = [rng.choice(families or FAMILIES)(rng) for _ in range(k)]
     # interleave the families' op lists, keeping each family's internal order
     ops = []
     idx = [0] * len(parts)
@@ -646,13 +970,25 @@ def run(ctx: C.Ctx):
                 'class + subclass defined after use; novel value subtypes on dump; Meta bound before first use; classes that are their own '
                 'dumper / loader with overridden hooks and a subclass defined before / after use; LoadMeta / DumpMeta bound after '
                 'operations of the other kind, tags and Unions; inheritance chains on the default and the v1 engine through every entry '
-                'point), each run in a forked pristine child; every load/dump position is re-run alone (needed definitions + the op) in another pristine child and the '
+                'point; unrelated classes fed ==/hash-equal values of different types (1 / 1.0 / True / "1", 0 / -0.0 / False) at one annotated '
+                'type, scalar kinds incl. timedelta / Decimal / Enum-by-value, bare and in containers; Unions mixing Literal members with plain '
+                'members of the same Python type and tagged dataclasses, values of one type alternating between members; one Pattern object / '
+                'Annotated alias shared by date / time / datetime fields of unrelated classes, fields absent from early documents), each run in a forked pristine child; every load/dump position is re-run alone (needed definitions + the op) in another pristine child and the '
                 'two outcomes compared. Non-trivial = distinct (history, position) after the first op.')
-    n = ctx.quick(170, 2200)
+    n = ctx.quick(195, 2500)
     for i in range(n):
         if ctx.done(i):
             break
         ops = gen_history(rng)
+        if not ctx.begin_case(i):
+            continue
+        check_history(ctx, 'history', i, ops)
+    # histories made of the colliding-key families only (1..3 of them interleaved; now and then one of the other families as well)
+    for j in range(ctx.quick(90, 1200)):
+        i = 50000 + j
+        if ctx.done(i):
+            break
+        ops = gen_history(rng, MEMO_FAMILIES if rng.random() < 0.8 else MEMO_FAMILIES * 3 + FAMILIES)
         if not ctx.begin_case(i):
             continue
         check_history(ctx, 'history', i, ops)
